@@ -38,6 +38,7 @@ type scenario struct {
 	ReqCookies []cookieJ `json:"req_cookies,omitempty"`
 	CliCookies []cookieJ `json:"cli_cookies,omitempty"`
 	NoCompress bool      `json:"no_compress"`
+	Redirected bool      `json:"redirected,omitempty"` // judged on a hop after a redirect: net/http adds Referer
 }
 
 var valueWords = []string{"1", "no-cache", "text/html,application/xhtml+xml;q=0.9,*/*;q=0.8", "en-US,en;q=0.5", "a b  c",
@@ -389,6 +390,7 @@ type captured struct {
 	scheme string
 	clen   int64
 	off    bool // set before concurrent use: nothing is recorded then
+	all    []http.Header // every round trip (the hops of a redirect chain)
 }
 
 func newClient(sc scenario, o *origin.Origin, capt *captured) *req.Client {
@@ -400,6 +402,7 @@ func newClient(sc scenario, o *origin.Origin, capt *captured) *req.Client {
 				return rt.RoundTrip(r)
 			}
 			capt.hdr = r.Header.Clone()
+			capt.all = append(capt.all, capt.hdr)
 			capt.method, capt.host, capt.path, capt.scheme = r.Method, r.Host, r.URL.RequestURI(), r.URL.Scheme
 			capt.clen = r.ContentLength
 			return rt.RoundTrip(r)
@@ -618,6 +621,7 @@ func oracle(r *hk.Run, sc scenario, obs origin.Obs) {
 			// the writer's own lines (on HTTP/1.1 exactly these spellings; anything else is the caller's)
 		case ln == "accept-encoding" && f.Value == "gzip" && !sc.NoCompress && !callerSet(sc, "Accept-Encoding"):
 		case ln == "content-type" && sc.BodyLen > 0 && !callerSet(sc, "Content-Type"):
+		case f.Name == "Referer" && sc.Redirected && !callerSet(sc, "Referer"):
 		default:
 			rest = append(rest, origin.Field{Name: f.Name, Value: strings.Trim(f.Value, " \t")})
 		}
